@@ -54,11 +54,12 @@ var specs = []CheckSpec{
 		ID: "C08", Pkg: "diff",
 		Harnesses: []HarnessSpec{
 			{Fn: "VerifC08Small", Quick: map[string]int{"P": 3, "Q": 3}, Thorough: map[string]int{"P": 4, "Q": 4}, Witness: []string{"identical", "hunks-parsed"}, Native: true},
+			{Fn: "VerifC08AnchoredShort", Quick: map[string]int{"MLO": 3, "M": 5, "S": 1}, Thorough: map[string]int{"MLO": 1, "M": 5, "S": 1}, Witness: []string{"hunks-parsed"}, Native: true},
 			{Fn: "VerifC08Anchored", Quick: map[string]int{"MLO": 7, "M": 7, "S": 1}, Thorough: map[string]int{"MLO": 6, "M": 9, "S": 1}, Witness: []string{"multi-hunk", "hunks-parsed"}, Native: true},
 		},
 		Bounds: map[string]string{
-			"quick":    "all pairs of texts with <= 3 lines per side, each line one arbitrary byte (all equality patterns, with/without final newline per side); templates with 7 common anchor lines and <= 1 arbitrary line before/after on each side (multi-hunk output)",
-			"thorough": "<= 4 lines per side; 6..9 anchor lines",
+			"quick":    "all pairs of texts with <= 3 lines per side, each line one arbitrary byte (all equality patterns, with/without final newline per side); templates with 3..5 and with 7 common anchor lines and <= 1 arbitrary line before/after on each side (single- and multi-hunk output)",
+			"thorough": "<= 4 lines per side; 1..5 and 6..9 anchor lines",
 		},
 		Assumptions: append([]string{"lines are opaque to the algorithm (only equality and concatenation of whole lines): one symbolic byte per line stands for arbitrary line contents"}, commonAssumptions...),
 		Outside:     []string{"longer texts", "multi-byte line contents (spot-checked by the native suite only)", "decimal rendering inside fmt (concrete integers are rendered by the native fmt)"},
